@@ -486,9 +486,41 @@ fn search(r: &mut Rng, n: usize) {
     // regression: each with three arguments and an empty argument panicked before commit 751fe5f
     each3_case(&mut rep, &mut ev, "(++)", &num(&[0], &[]), &num(&[], &[1.]), &num(&[], &[2.]));
     each3_case(&mut rep, &mut ev, "(⊂⊂)", &num(&[2, 0], &[]), &num(&[], &[1.]), &num(&[2, 0], &[]));
+    marked_corpus(&mut rep, &mut ev);
     let mut i = 0;
     while i < n {
         i += 1;
+        if i % 6 == 0 {
+            // directed family: specialised operands on arguments that carry sortedness marks
+            let rank = 1 + r.below(3);
+            let bs = r.chance(1, 2);
+            let x0 = gen_tied(r, rank, bs);
+            let how = r.below(4);
+            let x = if r.chance(7, 8) { mark(&x0, how, &mut ev) } else { x0 };
+            let kind = r.below(7);
+            let y = match kind {
+                3 => num(&[], &[r.range(0, 3) as f64]),
+                4 => {
+                    let mut y0 = gen_tied(r, rank, bs);
+                    if y0.shape.elements() == x.shape.elements() {
+                        y0.shape = x.shape.clone();
+                    }
+                    let hy = r.below(4);
+                    mark(&y0, hy, &mut ev)
+                }
+                _ => {
+                    let ry = 1 + r.below(2);
+                    let by = r.chance(1, 2);
+                    let y0 = gen_tied(r, ry, by);
+                    let hy = r.below(4);
+                    mark(&y0, hy, &mut ev)
+                }
+            };
+            let f = if kind >= 5 { *r.pick(FAST_MON) } else { *r.pick(FAST_DY) };
+            let k = r.below(2);
+            marked_case(&mut rep, &mut ev, kind, f, k, &x, &y);
+            continue;
+        }
         let fam = r.below(100);
         if fam < 34 {
             // rows, nesting 1..3
@@ -572,6 +604,88 @@ fn search(r: &mut Rng, n: usize) {
         rep.viol,
         serde_json::to_string(&rep.fam).unwrap()
     );
+}
+
+// ---------------------------------------------------------------- arguments that carry sortedness marks
+
+/// give a value the marks the interpreter itself sets at run time: sort, reversed sort, select by rise
+fn mark(x: &Value, how: usize, ev: &mut usize) -> Value {
+    let prog = ["⍆", "⇌⍆", "⊏⊸⍏", "⇌⇌⍆"][how % 4];
+    run1(prog, &[x.clone()], ev).unwrap_or_else(|_| x.clone())
+}
+
+/// an integer array of rank 1-3 with ties (values 0..3), byte or float storage
+fn gen_tied(r: &mut Rng, rank: usize, byte_storage: bool) -> Value {
+    let mut sh: Vec<usize> = (0..rank).map(|_| 1 + r.below(3)).collect();
+    if rank > 1 && r.chance(1, 2) {
+        sh[0] = 3;
+    }
+    if r.chance(1, 16) {
+        let i = r.below(rank);
+        sh[i] = 0;
+    }
+    let n = shape_len(&sh);
+    if byte_storage {
+        let d: Vec<u8> = (0..n).map(|_| r.below(4) as u8).collect();
+        byte(&sh, &d)
+    } else {
+        let d: Vec<f64> = (0..n).map(|_| r.range(-1, 3) as f64).collect();
+        num(&sh, &d)
+    }
+}
+
+const FAST_DY: &[&str] = &["+", "×", "↥", "↧", "-", "=", "≠", "<", "≤", "˜-", "≥", "⊂"];
+const FAST_MON: &[&str] = &["¬", "±", "¯", "⌵", "⇌", "⊢", "⊣", "⍆", "⍉", "/↥", "/↧", "/+", "\\↥", "\\↧", "⊛", "◴"];
+
+/// one application of a modifier whose operand has a primitive-specialised path, on marked arguments
+fn marked_case(rep: &mut Rep, ev: &mut usize, kind: usize, f: &str, k: usize, x: &Value, y: &Value) {
+    let fl = uiua::verif::flags(x);
+    *rep.fam.entry(if fl.1 || fl.2 { "marked-args".to_string() } else { "unmarked-args".to_string() }).or_default() += 1;
+    match kind {
+        0 => reduce_case(rep, ev, f, k, x, false),
+        1 => reduce_case(rep, ev, f, k, x, true),
+        2 => table_case(rep, ev, f, x, y),
+        3 => fold_case(rep, ev, f, x, y),
+        4 => {
+            if x.shape == y.shape {
+                dyadic_rows_case(rep, ev, f, x, y)
+            }
+        }
+        5 => mapping_case(rep, ev, "≡", f, 1 + k, x),
+        _ => mapping_case(rep, ev, "∵", f, 1, x),
+    }
+}
+
+/// the fixed part of the directed family: every specialised reduce / scan operand on small
+/// matrices whose rows are lexicographically ordered while a later column is not monotone
+fn marked_corpus(rep: &mut Rep, ev: &mut usize) {
+    let mats: Vec<Value> = vec![
+        num(&[3, 2], &[2., 3., 1., 5., 1., 7.]),
+        byte(&[3, 2], &[2, 3, 1, 5, 1, 7]),
+        num(&[3, 2], &[1., 1., 1., 0., 0., 2.]),
+        byte(&[2, 2, 2], &[1, 0, 0, 3, 0, 2, 2, 1]),
+        num(&[4], &[2., 0., 2., 1.]),
+        byte(&[4], &[2, 0, 2, 1]),
+    ];
+    for m in &mats {
+        for how in 0..3 {
+            let xm = mark(m, how, ev);
+            for f in ["+", "×", "↥", "↧", "-", "=", "≥"] {
+                for k in 0..2 {
+                    marked_case(rep, ev, 0, f, k, &xm, &xm);
+                    marked_case(rep, ev, 1, f, k, &xm, &xm);
+                }
+            }
+            for f in ["+", "↥", "↧", "<"] {
+                marked_case(rep, ev, 2, f, 0, &xm, &xm);
+                marked_case(rep, ev, 3, f, 0, &xm, &num(&[], &[1.]));
+                marked_case(rep, ev, 4, f, 0, &xm, &xm);
+            }
+            for f in ["¬", "¯", "⇌", "⊢", "⊣", "⍆", "/↥", "\\↥", "\\↧"] {
+                marked_case(rep, ev, 5, f, 0, &xm, &xm);
+            }
+        }
+    }
 }
 
 fn mapping_case(rep: &mut Rep, ev: &mut usize, m: &str, f: &str, k: usize, x: &Value) {
